@@ -2007,9 +2007,19 @@ func (sh *shaper) checkInjective(s *Shape, probs *[]keyProblem) {
 		}
 		return
 	}
-	for i := 0; i < len(s.Sub); i++ {
-		for j := i + 1; j < len(s.Sub); j++ {
-			bi, bj := s.Sub[i], s.Sub[j]
+	// the alternatives written out (`"n:" {"0" | NUM}` is `"n:0" | "n:" NUM`), each once
+	var subs []*Shape
+	seenAlt := map[string]bool{}
+	for _, b := range distribute(s) {
+		b = concat(b)
+		if k := b.String(); !seenAlt[k] {
+			seenAlt[k] = true
+			subs = append(subs, b)
+		}
+	}
+	for i := 0; i < len(subs); i++ {
+		for j := i + 1; j < len(subs); j++ {
+			bi, bj := subs[i], subs[j]
 			if !sh.typeTags && bi.K != "const" && bj.K != "const" {
 				continue // value branches of different Go types: a column holds one scalar type
 			}
